@@ -229,6 +229,7 @@ def run_tlc(module: str, cfg_text: str, workdir: Path, *, workers: int | str = "
             extra=(), env=None, timeout=900, simulate=None, depth=None, seed=None,
             coverage=False, java_opts=(), heap="4g") -> TlcResult:
     """Run TLC on spec/<module>.tla with the given cfg text inside a scratch copy."""
+    cfg_text = accepted_last(cfg_text)      # see accepted_last: ACCEPT must be printed after every clause held
     workdir.mkdir(parents=True, exist_ok=True)
     # copy all spec modules (small) so metadir/state files land in scratch
     for f in SPEC.glob("*.tla"):
@@ -354,6 +355,7 @@ class Ctx:
         Returns (accepted_ids (0-based set), TlcResult)."""
         if not traces:
             return set(), None
+        cfg_text = accepted_last(cfg_text)
         tdir = self.tmp / "traces"
         tdir.mkdir(exist_ok=True)
         tf = tdir / f"batch_{len(list(tdir.iterdir()))}.json"
@@ -383,7 +385,7 @@ class Ctx:
         tdir.mkdir(exist_ok=True)
         tf = tdir / f"single_{len(list(tdir.iterdir()))}.json"
         tf.write_text(json.dumps([trace]))
-        cfg = cfg_text + "\nCONSTRAINT Progress\n"
+        cfg = accepted_last(cfg_text) + "\nCONSTRAINT Progress\n"
         r = run_tlc(module, cfg, self.tmp / "tlc", workers=1, timeout=timeout, env={"TRACE_FILE": str(tf)})
         far = 0
         for line in r.printed():
@@ -436,6 +438,21 @@ class Ctx:
         edir = Path(os.environ.get("VERIF_EVIDENCE_DIR", VERIF / "evidence"))   # redirected only when trying seeded changes
         edir.mkdir(parents=True, exist_ok=True)
         (edir / f"{self.pid}.json").write_text(json.dumps(ev, indent=1, default=str))
+
+
+def accepted_last(cfg_text: str) -> str:
+    """TLC evaluates the invariants of a cfg in the order they are listed and stops at the first false
+    one.  The `Accepted` invariant prints ACCEPT as a side effect, so it must be evaluated LAST: otherwise
+    a clause that is false in the final state of a trace would be reported after the trace had already
+    been announced as accepted."""
+    lines = cfg_text.splitlines()
+    acc = [l for l in lines if l.strip() == "INVARIANT Accepted"]
+    if not acc:
+        return cfg_text
+    rest = [l for l in lines if l.strip() != "INVARIANT Accepted"]
+    last_inv = max((n for n, l in enumerate(rest) if l.strip().startswith("INVARIANT")), default=len(rest) - 1)
+    rest[last_inv + 1:last_inv + 1] = ["INVARIANT Accepted"]
+    return "\n".join(rest) + "\n"
 
 
 # --------------------------------------------------------------------------- known findings
